@@ -18,13 +18,19 @@ EX == INSTANCE Exec     \* the generic block formulas (C07 / C08 / C14) are eval
 VARIABLES l, tname, g, env, pending, viol, drift
 tvars == <<l, tname, g, env, pending, viol, drift>>
 
-Env0 == [svc |-> <<>>, h |-> 0, bxh |-> "", unordered |-> {}, admins |-> {}]
+Env0 == [svc |-> <<>>, h |-> 0, bxh |-> "", unordered |-> {}, admins |-> {}, relay |-> <<>>, rule |-> <<>>]
 Init == l = 0 /\ tname = "" /\ g = GInit /\ env = Env0 /\ pending = FALSE /\ viol = {} /\ drift = {} /\ TLCSet(1, 0)
 
 SvcMap(list) == [s \in {x.svc : x \in ToSet(list)} |-> (CHOOSE x \in ToSet(list) : x.svc = s).st]
+\* the validation rule bound (status available) to every registered appchain, "" if none
+RuleMap(list) == [c \in {x.chain : x \in ToSet(list)} |->
+                    LET x == CHOOSE y \in ToSet(list) : y.chain = c IN [bound |-> x.bound, unbinding |-> x.unbinding, cert |-> x.cert]]
+\* other BitXHubs registered on this hub: status, registered validator labels, length of the validator list
+RelayMap(list) == [b \in {x.bxh : x \in ToSet(list)} |->
+                     LET x == CHOOSE y \in ToSet(list) : y.bxh = b IN [st |-> x.st, vals |-> ToSet(x.vals), n |-> x.n]]
 
-\* judge and apply one transaction; acc = [g, v, d]
-TxStep(acc, en, t) ==
+\* judge and apply one transaction (position i of the block); acc = [g, v, d, nt]; nt = positions accepted as notices
+TxStep(acc, en, t, i) ==
   IF t.k = "invoke" /\ t.cls = "surface"
   THEN [acc EXCEPT !.v = @ \cup (IF C17_InternalOnly(t) THEN {} ELSE {<<"C17_InternalOnly", [c |-> t.c, m |-> t.m, role |-> t.role]>>})
                           \cup (IF C17_Privileged(t) THEN {} ELSE {<<"C17_Privileged", [c |-> t.c, m |-> t.m, role |-> t.role]>>})]
@@ -33,14 +39,30 @@ TxStep(acc, en, t) ==
   LET gg == acc.g
       ok == t.status = "SUCCESS"
       bf == t.ret = "begin_failure"
-  IN IF t.typ = "REQ" THEN
+      proofViol == IF ProofAcceptable(en, t) THEN {}
+                   ELSE {<<IF Prover(t) = en.bxh THEN "C03_Gate" ELSE "C03_MultiSign",
+                           IF Prover(t) = en.bxh THEN [id |-> t.id, rule |-> RuleOf(en, ProverChain(t)), hashok |-> t.hashok, art |-> t.art]
+                           ELSE [id |-> t.id, hub |-> Prover(t), sigs |-> t.sigs, hashok |-> t.hashok,
+                                 registered |-> IF Prover(t) \in DOMAIN en.relay THEN en.relay[Prover(t)] ELSE [st |-> "none", vals |-> {}, n |-> 0]]>>}
+  IN IF t.typ = "REQ" /\ IsNotice(gg, t) THEN
+       IF ok THEN
+         LET legal == t.id \in DOMAIN gg.st /\ NextStatus(gg.st[t.id], NoticeEv(t)) # "NONE"
+         IN [g |-> IF legal THEN AcceptRcpt(gg, [t EXCEPT !.typ = NoticeEv(t)]) ELSE IF t.id \in DOMAIN gg.st THEN ForceNotice(gg, t) ELSE gg,
+             v |-> acc.v \cup proofViol
+                         \cup (IF t.idx = Get(gg.rcp, <<t.src, t.dst>>, 0) + 1 THEN {} ELSE {<<"C02_ReceiptInOrder", t.id>>})
+                         \cup (IF legal THEN {} ELSE {<<"C04_Step", [id |-> t.id, from |-> CurStatus(gg, t.id), by |-> NoticeEv(t)]>>}),
+             d |-> acc.d, nt |-> acc.nt \cup {i}]
+       ELSE [acc EXCEPT !.d = IF ShouldAcceptNotice(gg, en, t) THEN @ \cup {<<"rejected", t.id>>} ELSE @]
+     ELSE IF t.typ = "REQ" THEN
        IF ok THEN
          [g |-> IF t.gid = "" THEN AcceptReq(gg, en, t, bf) ELSE AcceptGroupReq(gg, en, t, bf),
-          v |-> acc.v \cup (IF t.proofok THEN {} ELSE {<<"C03_Gate", t.id>>})
-                      \cup (IF t.srcLocal /\ Avail(en, t.src) THEN {} ELSE {<<"C16_SourceAvailable", t.id>>})
+          v |-> acc.v \cup proofViol
+                      \cup (IF t.srcLocal => Avail(en, t.src) THEN {} ELSE {<<"C16_SourceAvailable", t.id>>})
                       \cup (IF IsBatchDst(en, t) \/ t.idx = Get(gg.acc, <<t.src, t.dst>>, 0) + 1 THEN {} ELSE {<<"C02_InOrder", t.id>>})
+                      \cup (IF XH(t) /\ Seen(gg, t.id) THEN {<<"C02_InOrder", t.id>>} ELSE {})
                       \cup (IF bf = ~DestOK(en, t) \/ t.dstChain = en.bxh THEN {} ELSE {<<"C16_DestGate", t.id>>}),
-          d |-> acc.d]
+          d |-> acc.d \cup (IF t.srcLocal \/ SourceOK(en, t) THEN {} ELSE {<<"accepted from an unavailable hub", t.id>>}),
+          nt |-> acc.nt]
        ELSE [acc EXCEPT !.d = IF ShouldAcceptReq(gg, en, t) THEN @ \cup {<<"rejected", t.id>>} ELSE @]
      ELSE
        IF ok THEN
@@ -49,25 +71,26 @@ TxStep(acc, en, t) ==
                                 ELSE LET gr == gg.grp[gg.kid[t.id]] IN
                                      (gr.state = "BEGIN" /\ t.typ = "FAIL") \/ NextStatus(gr.kids[t.id], t.typ) # "NONE"
          IN [g |-> IF ~legal THEN gg ELSE IF t.id \in DOMAIN gg.st THEN AcceptRcpt(gg, t) ELSE AcceptGroupRcpt(gg, t),
-             v |-> acc.v \cup (IF t.proofok THEN {} ELSE {<<"C03_Gate", t.id>>})
+             v |-> acc.v \cup proofViol
                          \cup (IF known THEN {} ELSE {<<"C02_ReceiptAfterRequest", t.id>>})
                          \cup (IF t.idx = Get(gg.rcp, <<t.src, t.dst>>, 0) + 1 THEN {} ELSE {<<"C02_ReceiptInOrder", t.id>>})
                          \cup (IF known /\ ~legal THEN {<<"C04_Step", [id |-> t.id, from |-> CurStatus(gg, t.id), by |-> t.typ]>>} ELSE {}),
-             d |-> acc.d]
+             d |-> acc.d, nt |-> acc.nt]
        ELSE [acc EXCEPT !.d = IF ShouldAcceptRcpt(gg, en, t) THEN @ \cup {<<"rejected", t.id>>} ELSE @]
 
 RunTxs(g0, en, txs) ==
-  LET F[i \in 0..Len(txs)] == IF i = 0 THEN [g |-> g0, v |-> {}, d |-> {}] ELSE TxStep(F[i-1], en, txs[i])
+  LET F[i \in 0..Len(txs)] == IF i = 0 THEN [g |-> g0, v |-> {}, d |-> {}, nt |-> {}] ELSE TxStep(F[i-1], en, txs[i], i)
   IN F[Len(txs)]
 
 \* observed counters as a function <<kind, s, d>> -> n
 ObsCtr(list) == [k \in {<<x.kind, x.s, x.d>> : x \in ToSet(list)} |-> (CHOOSE x \in ToSet(list) : <<x.kind, x.s, x.d>> = k).n]
-CtrViol(g2, list) ==
+CtrViol(g2, list, unord) ==
   LET o == ObsCtr(list)
       pairs == DOMAIN g2.acc \cup DOMAIN g2.rcp \cup {<<k[2], k[3]>> : k \in {x \in DOMAIN o : x[1] \in {"ic", "rc"}}}
                 \cup {<<k[3], k[2]>> : k \in {x \in DOMAIN o : x[1] \in {"sic", "src"}}}
       bad == {p \in pairs : \/ Get(o, <<"ic", p[1], p[2]>>, 0) # Get(g2.acc, p, 0)
-                            \/ Get(o, <<"sic", p[2], p[1]>>, 0) # Get(g2.acc, p, 0)
+                            \* (C02 speaks of ordered pairs: an unordered destination records the last index, not the count)
+                            \/ (p[2] \notin unord /\ Get(o, <<"sic", p[2], p[1]>>, 0) # Get(g2.acc, p, 0))
                             \/ Get(o, <<"rc", p[1], p[2]>>, 0) # Get(g2.rcp, p, 0)
                             \/ Get(o, <<"src", p[2], p[1]>>, 0) # Get(g2.rcp, p, 0)}
   IN {<<"C02_CountersEqualHistory", [pair |-> p, acc |-> Get(g2.acc, p, 0), rcp |-> Get(g2.rcp, p, 0),
@@ -76,17 +99,18 @@ CtrViol(g2, list) ==
 
 StatusViol(g1, g2, h, list) ==
   LET expired == ExpiredIds(g1, h)
-      want(id) == IF id \in DOMAIN g2.kid THEN g2.grp[g2.kid[id]].state ELSE CurStatus(g2, id)
+      \* (an id can be both only through replays towards an unordered destination; the query reads the one-to-one record first)
+      want(id) == IF id \in DOMAIN g2.st THEN g2.st[id] ELSE IF id \in DOMAIN g2.kid THEN g2.grp[g2.kid[id]].state ELSE "NONE"
       bad == {x \in ToSet(list) : x.st # want(x.id)}
   IN {<<"C04_QueryAgrees", [id |-> x.id, observed |-> x.st, expected |-> want(x.id)]>> : x \in bad}
      \cup {<<"C06_FiresAt", [id |-> x.id, observed |-> x.st, expected |-> want(x.id)]>> :
               x \in {y \in bad : y.id \in expired \/ y.st = "BEGIN_ROLLBACK" \/ want(y.id) = "BEGIN_ROLLBACK"}}
 
 \* delivery: every accepted request is listed exactly once under its destination chain at its position
-DelivViol(en, txs, counter) ==
+DelivViol(en, txs, counter, notices) ==
   LET entries(chain) == IF chain \in DOMAIN counter THEN counter[chain] ELSE <<>>
       cnt(chain, p) == Cardinality({i \in 1..Len(entries(chain)) : entries(chain)[i].pos = p})
-      reqs == {i \in 1..Len(txs) : txs[i].k = "ibtp" /\ txs[i].typ = "REQ" /\ txs[i].status = "SUCCESS" /\ txs[i].dstChain # en.bxh}
+      reqs == {i \in 1..Len(txs) : txs[i].k = "ibtp" /\ txs[i].typ = "REQ" /\ txs[i].status = "SUCCESS" /\ txs[i].dstChain # en.bxh} \ notices
       dchain(t) == IF t.dstLocal THEN t.dstChain ELSE UnionPier
       allpos == UNION {{entries(c)[i].pos : i \in 1..Len(entries(c))} : c \in DOMAIN counter}
       okpos  == {i - 1 : i \in {j \in 1..Len(txs) : txs[j].k = "ibtp" /\ txs[j].status = "SUCCESS"}}
@@ -133,18 +157,24 @@ ChainFreezeViol(e) ==
 
 BlockStep(e) ==
   LET en == [env EXCEPT !.h = e.h]
-      r  == RunTxs(g, en, e.txs)
+      r0 == RunTxs(g, en, e.txs)
+      \* requests to an unordered destination that reach their timeout height: follow the observation, report the silent ones
+      obsSt(id) == LET xs == {x \in ToSet(e.status) : x.id = id} IN IF xs = {} THEN "NONE" ELSE (CHOOSE x \in xs : TRUE).st
+      bfire  == {id \in BatchExpiring(r0.g, e.h) : obsSt(id) = "BEGIN_ROLLBACK"}
+      silent == BatchExpiring(r0.g, e.h) \ bfire
+      r  == [r0 EXCEPT !.g = Fire(r0.g, bfire, e.h),
+                       !.v = @ \cup {<<"C06_FiresAt", [id |-> id, unordered |-> TRUE, observed |-> obsSt(id), expected |-> "BEGIN_ROLLBACK"]>> : id \in silent}]
       g2 == EndBlock(r.g, e.h)
       idChain == [id \in DOMAIN r.g.st |-> "?"]
       srcChainOf == [x \in {t.id : t \in {y \in SeqRange(e.txs) : y.k = "ibtp"}} |->
                        LET t == CHOOSE y \in SeqRange(e.txs) : y.k = "ibtp" /\ y.id = x IN IF t.srcLocal THEN t.srcChain ELSE UnionPier]
   IN [g |-> g2,
-      v |-> r.v \cup CtrViol(g2, e.counters) \cup StatusViol(r.g, g2, e.h, e.status)
+      v |-> r.v \cup CtrViol(g2, e.counters, en.unordered) \cup StatusViol(r.g, g2, e.h, e.status)
                 \cup (IF Len(e.txs) > 0 /\ (\A i \in 1..Len(e.txs) : e.txs[i].k = "invoke" /\ e.txs[i].cls = "surface" /\ e.txs[i].role # "govadmin")
-                          /\ (CtrViol(g2, e.counters) \cup StatusViol(r.g, g2, e.h, e.status)) # {}
+                          /\ (CtrViol(g2, e.counters, en.unordered) \cup StatusViol(r.g, g2, e.h, e.status)) # {}
                       THEN {<<"C17_NoForeignDelete", {[c |-> e.txs[i].c, m |-> e.txs[i].m] : i \in 1..Len(e.txs)}>>} ELSE {})
-                \cup DelivViol(en, e.txs, e.counter) \cup GroupViol(g2, e.groups) \cup ChainFreezeViol(e),
-      d |-> r.d, src |-> srcChainOf]
+                \cup DelivViol(en, e.txs, e.counter, r.nt) \cup GroupViol(g2, e.groups) \cup ChainFreezeViol(e),
+      d |-> r.d, src |-> srcChainOf, pre |-> r.g]
 
 VARIABLE chainOfId   \* id -> source chain (for timeout metadata)
 allvars == <<tvars, chainOfId>>
@@ -155,7 +185,7 @@ Step(e) ==
   /\ CASE e.ev = "Init" ->
             /\ g' = GInit /\ pending' = FALSE /\ chainOfId' = <<>>
             /\ env' = [svc |-> SvcMap(e.svc), h |-> e.h, bxh |-> e.bxh, unordered |-> {e.bxh \o ":" \o u : u \in ToSet(e.unordered)},
-                       admins |-> ToSet(e.admins)]
+                       admins |-> ToSet(e.admins), relay |-> RelayMap(e.relay), rule |-> RuleMap(e.rules)]
             /\ viol' = viol \cup (IF e.setupEqual THEN {} ELSE {<<nm, l + 1, "C01_SetupDiverged", 0>>})
             /\ drift' = drift
        [] e.ev = "Submit" -> /\ pending' = TRUE /\ UNCHANGED <<g, env, viol, drift, chainOfId>>
@@ -163,9 +193,9 @@ Step(e) ==
             LET b == BlockStep(e)
                 cmap == [x \in DOMAIN chainOfId \cup DOMAIN b.src |-> IF x \in DOMAIN b.src THEN b.src[x] ELSE chainOfId[x]]
                 tv == TmetaViol(g, e.h, e.tmeta, cmap)
-                tv2 == LET r == RunTxs(g, [env EXCEPT !.h = e.h], e.txs) IN TmetaViol(r.g, e.h, e.tmeta, cmap)
+                tv2 == TmetaViol(b.pre, e.h, e.tmeta, cmap)
             IN /\ g' = b.g /\ pending' = FALSE /\ chainOfId' = cmap
-               /\ env' = [env EXCEPT !.svc = SvcMap(e.svc), !.h = e.h]
+               /\ env' = [env EXCEPT !.svc = SvcMap(e.svc), !.h = e.h, !.relay = RelayMap(e.relay), !.rule = RuleMap(e.rules)]
                /\ viol' = viol \cup {<<nm, l + 1, x[1], x[2]>> : x \in b.v \cup tv2 \cup EX!GenericBlockViol(e, env.admins)}
                /\ drift' = drift \cup {<<nm, l + 1, x>> : x \in b.d}
        [] e.ev \in {"ExecError", "Crashed"} ->
